@@ -413,6 +413,11 @@ def _near_built_media():
         [td, "ind 1", "push " + seg("a")], [td, "ds 0", "push " + seg("a")], [td, "ds 1", "push " + seg("a")], [td, "pt VOD", "push " + seg("a")],
         [td, "unk " + hx("#EXT-X-FOO"), "push " + seg("a")], [td, "unk", "push " + seg("a")], [td, "ex 0", "push " + seg("a")],
         [td, "ex 1000000000", "push " + seg("a")], ["td 11000000000", "push " + seg("a")],
+        # durations a nanosecond / half a second apart (the text form of some of them is whole seconds: the VALUES still differ)
+        ["td 10000000001", "push " + seg("a")], ["td 10500000000", "push " + seg("a")], ["td 10999999999", "push " + seg("a")],
+        [td, "ex 1", "push " + seg("a")], [td, "ex 999999999", "push " + seg("a")], [td, "ex 1000000001", "push " + seg("a")],
+        [td, "push dur=1000000001 uri=" + hx("a")], [td, "push dur=999999999 uri=" + hx("a")], [td, "push dur=1500000000 uri=" + hx("a")],
+        [td, "push dur=1000000000 uri=" + hx("a"), "push dur=1000000001 uri=" + hx("b")],
     ]]
 
 
@@ -1046,6 +1051,51 @@ def dress_media(rng, text, avoid=()):
     return "\n".join(out)
 
 
+HOISTABLE = ("#EXT-X-KEY", "#EXT-X-MAP", "#EXT-X-BYTERANGE", "#EXT-X-PROGRAM-DATE-TIME", "#EXT-X-DATERANGE")
+
+
+def hoist_extinf(text):
+    """the same playlist with every EXTINF line moved to the FRONT of its item (in front of the KEY / MAP / BYTERANGE /
+    DISCONTINUITY / PROGRAM-DATE-TIME / DATERANGE lines that directly precede it). RFC 8216 fixes no order among the tags of a
+    segment: each applies to the next URI line, so the meaning is unchanged - but code that takes a segment's state (its keys, its
+    range, its number) when it SEES THE EXTINF LINE instead of the URI line now gives another answer."""
+    lines = text.split("\n")
+    out = []
+    for ln in lines:
+        if ln.startswith("#EXTINF:"):
+            j = len(out)
+            while j > 0:
+                p = out[j - 1].strip()
+                if p.startswith(HOISTABLE) or p == "#EXT-X-DISCONTINUITY":
+                    j -= 1
+                else:
+                    break
+            out.insert(j, ln)
+        else:
+            out.append(ln)
+    return "\n".join(out)
+
+
+def inf_first(cases, ops=("media", "rt_media", "media_fromstr"), every=1):
+    """`cases` plus, for every `every`-th case of the given ops whose text changes under `hoist_extinf`, a copy with the EXTINF
+    lines hoisted (same meta: the expectation is about the segments, not about the order of their tags)"""
+    out = list(cases)
+    k = 0
+    for c in cases:
+        if c.op not in ops:
+            continue
+        parts = c.line.split("\t")
+        t = C.unhx(parts[1])
+        h = hoist_extinf(t)
+        if h == t or C.hx(t) != parts[1]:
+            continue
+        k += 1
+        if k % every:
+            continue
+        out.append(Case("\t".join([parts[0], C.hx(h)] + parts[2:]), (c.group or "") + "/inf-first", dict(c.meta, text=h) if "text" in c.meta else c.meta))
+    return out
+
+
 # ------------------------------------------------------------------------------------------
 # C06
 
@@ -1179,7 +1229,7 @@ def c06_build(ctx):
                     seq = seq + (("S",),)
                     cases.append(mk("media", c06_render(seq), group="new-literal-as-keyformat", meta={"seq": seq, "fmt": list(C06_FMT), "fmt_id": list(C06_FMT_ID)}))
     del C06_FMT[base_n:], C06_FMT_ID[base_n:]
-    return cases
+    return inf_first(cases)
 
 
 def c06_check_generic(c, a, fails):
@@ -1408,7 +1458,7 @@ def c07_build(ctx):
         else:
             calls += ["segs " + " | ".join(c20_seg_script(sg, num) for sg, num in zip(segs, nums))]
         cases.append(mk("build_media", "\n".join(calls), group="built:" + style, meta={"built": want, "ms": ms or 0}))
-    return cases
+    return inf_first(cases)
 
 
 def c07_oracle(ctx, cases, impl, model):
@@ -1591,7 +1641,7 @@ def c08_build(ctx):
         segs = [(u1, "E", 10, 100, None), (u2, "I", 20, 0, None)]
         for op, args in (("rt_media", []), ("media_fromstr", []), ("media_builder", ["-"])):
             cases.append(mk(op, c08_render(segs), *args, group="look-alike-uris", meta={"segs": segs}))
-    return cases
+    return inf_first(cases, every=2)
 
 
 def c08_oracle(ctx, cases, impl, model):
@@ -1748,7 +1798,7 @@ def c09_build(ctx):
         lines = dress_header(rng, "\n".join(lines)).split("\n")
         cases.append(mk("media_builder", "\n".join(lines) + "\n", "-" if e is None else str(e * NS), group="text-dressed",
                         meta={"durs": [max(0, d) for d in durs], "t": t * NS, "e": None if e is None else e * NS}))
-    return cases
+    return inf_first(cases, ops=("media_builder",), every=2)
 
 
 def c09_oracle(ctx, cases, impl, model):
@@ -1900,9 +1950,37 @@ def c15_build(ctx):
     return cases
 
 
+def c15_far(ctx):
+    """a foreign line however FAR into the text it stands: behind more lines than a 16-bit, a 20-bit or a decimal-million counter
+    or cap would hold (a parser that stops reading after some number of lines accepts what stands behind). Implementation only:
+    the Lean driver is not built for texts of millions of lines (its unknown-tag list is quadratic, deep recursion overflows its
+    stack), and the expectation needs no model - the foreign line is there by construction."""
+    good_master = '#EXT-X-STREAM-INF:BANDWIDTH=1\nv.m3u8\n'
+    good_media = "#EXT-X-TARGETDURATION:10\n#EXTINF:1,\ns.ts\n"
+    cases = []
+    for nfill in ([70000, (1 << 20) + 50] if ctx.quick else [70000, 1000050, (1 << 20) + 50, (1 << 21) + 50, (1 << 22) + 50]):
+        for fill in ("#c\n", "#EXT-X-VERSION:3\n", "#EXT-X-FOO:1\n"):
+            cases.append(mk("master", "#EXTM3U\n" + good_master + fill * nfill + "#EXTINF:1,\ns.ts\n", group="foreign-tag-far-away", meta={"foreign": "media-tag"}))
+            cases.append(mk("master", "#EXTM3U\n" + good_master + fill * nfill + "s.ts\n", group="foreign-tag-far-away", meta={"foreign": "bare URI line"}))
+            cases.append(mk("media", "#EXTM3U\n" + good_media + fill * nfill + good_master, group="foreign-tag-far-away", meta={"foreign": "master-tag"}))
+        cases.append(mk("media", "#EXTM3U\n#EXT-X-TARGETDURATION:10\n" + "#EXTINF:1,\ns.ts\n" * (nfill // 2) + '#EXT-X-MEDIA:TYPE=AUDIO,GROUP-ID="g",NAME="n"\n',
+                        group="foreign-tag-far-away", meta={"foreign": "master-tag"}))
+        cases.append(mk("master", "#EXTM3U\n" + good_master * (nfill // 2) + "#EXT-X-TARGETDURATION:10\n", group="foreign-tag-far-away", meta={"foreign": "media-tag"}))
+    return cases
+
+
 def c15_oracle(ctx, cases, impl, model):
     fails = []
     by_text = {}
+    far = c15_far(ctx)
+    t0 = time.time()
+    for c, a in zip(far, C.run_many(C.IMPL, [c.line for c in far], jobs=8)):
+        st = a.split(" ", 1)[0]
+        if st != "err":
+            what = "%s parser accepted a text with a %s in tag position, %d lines into the text" % (c.op, c.meta["foreign"], c.payload.count("\n")) if st == "ok" else \
+                "%s parser did not return on a text of %d lines (%s)" % (c.op, c.payload.count("\n"), st)
+            fails.append({"op": c.op, "payload": c.payload[:200] + " … " + c.payload[-200:], "implementation": a[:200], "what": what, "law": c.op + "-rejects", "lines": c.payload.count("\n")})
+    ctx.features["far-away foreign lines (implementation only)"] = len(far)
     for c, a in zip(cases, impl):
         st = a.split(" ", 1)[0]
         if st == "panic":
@@ -2003,11 +2081,14 @@ def live_history(rng, n):
     return segs
 
 
-def live_render(segs, base, k, n, end=False):
-    """the server's playlist for the window [k, n): media sequence base+k, tags in effect restated"""
+def live_render(segs, base, k, n, end=False, rng=None):
+    """the server's playlist for the window [k, n): media sequence base+k, tags in effect restated. With `rng`, the EXTINF line
+    of each item stands at a random place among the item's tags (each window may choose differently: the order of a segment's
+    tags means nothing)"""
     lines = ["#EXTM3U", "#EXT-X-TARGETDURATION:10", "#EXT-X-MEDIA-SEQUENCE:%d" % (base + k)]
     for i in range(k, n):
         s = segs[i]
+        item_at = len(lines)
         if i == k:
             # restate what is in effect at the first segment of the window
             if s.in_effect is None:
@@ -2024,7 +2105,8 @@ def live_render(segs, base, k, n, end=False):
                 lines.append("#EXT-X-BYTERANGE:%d" % s.len)
         if s.disc:
             lines.append("#EXT-X-DISCONTINUITY")
-        lines += ["#EXTINF:%s," % s.dur, s.uri]
+        lines.insert(rng.randint(item_at, len(lines)) if rng is not None else len(lines), "#EXTINF:%s," % s.dur)
+        lines.append(s.uri)
     if end:
         lines.append("#EXT-X-ENDLIST")
     return "\n".join(lines) + "\n"
@@ -2068,7 +2150,7 @@ def c16_build(ctx):
         # every window [k, m): slide and append chains
         for k in range(0, n):
             for m in range(k + 1, n + 1):
-                cases.append(mk("media", live_render(segs, base, k, m), group="window", meta={"live": gid, "k": k, "m": m, "base": base}))
+                cases.append(mk("media", live_render(segs, base, k, m, rng=(rng if pi % 2 else None)), group="window", meta={"live": gid, "k": k, "m": m, "base": base}))
     # every line-boundary cut of generated playlists
     for pi in range(ctx.n(300, 3000)):
         text = G.gen_media(rng, max_segments=5, features=ctx.features)[0]
@@ -2541,7 +2623,15 @@ def c11_texts(ctx):
                 ls.insert(rng.randint(1, len(ls) - 1), ls[i])
         t2 = "\n".join(ls)
         texts.append(("rt_media" if "#EXTINF" in t else "rt_master", t2))
-    return texts
+    # the same texts with quoted strings written so that the parser has to ALLOCATE for them instead of borrowing from the input (no
+    # quotes around a URI; a stray quote inside): a result that depends on where such a string lies in memory (comparison of
+    # addresses, pointer-keyed maps) shows when the heap looks different from one parse to the next
+    extra = []
+    for op, t in texts[:ctx.n(400, 4000)]:
+        u = re.sub(r'URI="([^",\s"]+)"', lambda m: "URI=" + m.group(1) if rng.random() < 0.7 else 'URI="' + m.group(1)[:1] + '"' + m.group(1)[1:] + '"', t)
+        if u != t:
+            extra.append((op, u))
+    return texts + extra
 
 
 def c11_build(ctx):
@@ -2712,7 +2802,7 @@ def c17_build(ctx):
         cases.append(mk("cmp_entry", t, group="entry-points-eq"))
     for _ in range(ctx.n(300, 6000)):
         cases.append(mk("cmp_entry", G.gen_media(rng, features=ctx.features)[0], group="entry-points-eq"))
-    return cases
+    return inf_first(cases, ops=("owned:media",), every=2)
 
 
 def c17_oracle(ctx, cases, impl, model):
@@ -2872,6 +2962,36 @@ def c14_build(ctx):
         exp = idp is not None and (eon is None or (cl is not None and ed is None))
         for order in (attrs, attrs[::-1]):
             cases.append(mk("tag:ExtXDateRange", "#EXT-X-DATERANGE:" + ",".join(order), group="DATERANGE-empty-values", meta={"exp": exp}))
+    # an enumerated value is the bare word: the same word dressed with quotes (as a quoted-string attribute would be written), with
+    # stray quotes, in another letter case or in apostrophes is outside the RFC's set and is rejected — for every enumerated
+    # attribute of every tag (a parser that runs such a value through the helper for quoted strings accepts them)
+    enum_bases = [
+        ("tag:ExtXDateRange", '#EXT-X-DATERANGE:ID="i",CLASS="c",END-ON-NEXT=%s', ["YES"]),
+        ("tag:ExtXMedia", '#EXT-X-MEDIA:TYPE=%s,GROUP-ID="g",NAME="n"', ["AUDIO", "VIDEO"]),
+        ("tag:ExtXMedia", '#EXT-X-MEDIA:TYPE=AUDIO,GROUP-ID="g",NAME="n",DEFAULT=%s', ["YES", "NO"]),
+        ("tag:ExtXMedia", '#EXT-X-MEDIA:TYPE=AUDIO,GROUP-ID="g",NAME="n",AUTOSELECT=%s', ["YES", "NO"]),
+        ("tag:ExtXMedia", '#EXT-X-MEDIA:TYPE=SUBTITLES,URI="u",GROUP-ID="g",NAME="n",FORCED=%s', ["YES", "NO"]),
+        ("tag:ExtXKey", '#EXT-X-KEY:METHOD=%s,URI="u"', ["AES-128", "SAMPLE-AES"]),
+        ("tag:ExtXKey", '#EXT-X-KEY:METHOD=%s', ["NONE"]),
+        ("tag:ExtXSessionKey", '#EXT-X-SESSION-KEY:METHOD=%s,URI="u"', ["AES-128", "SAMPLE-AES"]),
+        ("tag:ExtXMap", '#EXT-X-MAP:URI="u"%s', [""]),
+        ("tag:ExtXStart", '#EXT-X-START:TIME-OFFSET=1,PRECISE=%s', ["YES", "NO"]),
+        ("type:PlaylistType", "#EXT-X-PLAYLIST-TYPE:%s", ["VOD", "EVENT"]),
+        ("tag:VariantStream", '#EXT-X-STREAM-INF:BANDWIDTH=1,HDCP-LEVEL=%s\nu', ["TYPE-0", "NONE"]),
+        ("tag:VariantStream", '#EXT-X-I-FRAME-STREAM-INF:BANDWIDTH=1,URI="u",HDCP-LEVEL=%s', ["TYPE-0", "NONE"]),
+    ]
+    for op, tmpl, vals in enum_bases:
+        for v in vals:
+            if not v:
+                continue
+            dressed = [v, '"%s"' % v, '"' + v, v + '"', '""%s""' % v, v[:1] + '"' + v[1:], v + '""', v.lower(), v.title(), "'%s'" % v, v + v, v[:-1]]
+            for x in dressed:
+                text = tmpl % x
+                cases.append(mk(op, text, group="enumerated-value-dressed", meta={"exp": x == v}))
+                if op in ("tag:ExtXDateRange", "tag:ExtXKey", "tag:ExtXStart", "type:PlaylistType"):
+                    cases.append(mk("media", "#EXTM3U\n#EXT-X-TARGETDURATION:10\n" + text + "\n#EXTINF:1,\ns\n", group="enumerated-value-dressed", meta={"exp": x == v}))
+                elif op != "tag:ExtXMap":
+                    cases.append(mk("master", "#EXTM3U\n" + text + "\n", group="enumerated-value-dressed", meta={"exp": x == v}))
     # keys
     ivs = [None, "0x000102030405060708090a0b0c0d0e0f", "0X000102030405060708090A0B0C0D0E0F", "000102030405060708090a0b0c0d0e0f", "0x0001", "0x000102030405060708090a0b0c0d0e0g",
            # 32 characters behind the prefix that a number parser would swallow but that are not 32 hex digits
@@ -3007,6 +3127,10 @@ def c18_build(ctx):
         cases.append(mk("type:KeyFormatVersions", '"' + "/".join(str(rng.choice([0, 1, 2, 5, 255, rng.randint(0, 255)])) for _ in range(k)) + '"', group="versions", meta={"domain": True}))
         cases.append(mk("type:InitializationVector", rng.choice(["0x", "0X"]) + "".join(rng.choice("0123456789abcdefABCDEF") for _ in range(32)), group="iv", meta={"domain": True}))
         cases.append(mk("type:Codecs", ",".join(rng.choice(["avc1.4d401e", "mp4a.40.2", "x y", "日本", "a=b"]) for _ in range(rng.randint(1, 4))), group="codecs", meta={"domain": True}))
+    for t in [",a", "a,", "a,,b", ",", ",,", ",,a", ",a,", "a,b,", " ,a", ", "]:
+        cases.append(mk("type:Codecs", t, group="codecs-empty-entries", meta={"domain": True}))
+        cases.append(mk("tag:VariantStream", '#EXT-X-STREAM-INF:BANDWIDTH=1,CODECS="%s"\nu' % t, group="codecs-empty-entries", meta={"domain": True}))
+        cases.append(mk("tag:VariantStream", '#EXT-X-I-FRAME-STREAM-INF:BANDWIDTH=1,URI="u",CODECS="%s"' % t, group="codecs-empty-entries", meta={"domain": True}))
         cases.append(mk("type:Value", rng.choice(['"%s"' % G.qs(rng), "0x" + "".join(rng.choice("0123456789ABCDEF") for _ in range(2 * rng.randint(0, 8))), G.f32_literal(rng)]), group="value", meta={"domain": True}))
     # float wrappers: literals, and bit patterns through the model too
     for _ in range(ctx.n(2000, 40000)):
@@ -3236,7 +3360,7 @@ PROPS["C18"] = {
     "build": c18_build, "gate": {"status", "obs", "T", "R", "V"}, "oracle": c18_oracle,
     "nontrivial": lambda c, a: a.startswith("ok"),
     "rule": "every variant of every enumerated type (67 in-stream ids, 7 versions, ...), boundary and random 64-bit integers through Channels / Resolution / ByteRange, random key-format-version lists (1-9 items), 128-bit IVs in both hex cases, codec lists, client attribute values of the three kinds, float literals and random / structured binary32 bit patterns on both float wrappers (also run through the model's float emulation), durations below 10^6 s with nanosecond precision, seeds and generated instances of every composite tag; plus a sweep of binary32 patterns executed inside the harness (quick: 256 strata x 2^16 per wrapper; thorough: all 2^32 per wrapper): accept iff finite (and sign bit clear), to_string -> parse gives the same bits; values built through the public builders and through the constructors that are not builders (ctor: new / with_ / From<Range> of 14 types) incl. strings that read like numbers, hex or keywords; the binary32 sweeps also through EXT-X-START and a client attribute value (all 2^32 in the quick tier too when float-related code changed); non-trivial = accepted value",
-    "explanation": "theorems: encryptionMethod_rt, hdcpLevel_rt, mediaType_rt, playlistType_rt, protocolVersion_rt, inStreamId_rt (all 67, decide +kernel over the table regenerated from the source), channels_rt, resolution_rt, byteRange_rt, codecs_rt, hexDecode_encode / natToBytes_spec / hexEncode_utf8Len / value_hex_rt, keyFormat_rt, closedCaptions_rt, keyFormatVersions_rt, float_accepts_finite; Props/C18Tags.lean: every tag type (EXTINF, BYTERANGE, KEY, MAP, PROGRAM-DATE-TIME, DATERANGE with its client attributes, MEDIA, both STREAM-INF kinds, SESSION-DATA, SESSION-KEY, START, the one-value tags) parses back from its own text on its well-formedness domain, and every parsed value is in that domain; FL1/FL2/FL3 are the named IEEE-754 hypotheses (float printing reading back), checked by execution incl. the 2^32 sweep; every case also carries the implementation oracle R:= (parse(to_string(v)) has the same observation as v), for parsed values and for values built through the public builders",
+    "explanation": "theorems: encryptionMethod_rt, hdcpLevel_rt, mediaType_rt, playlistType_rt, protocolVersion_rt, inStreamId_rt (all 67, decide +kernel over the table regenerated from the source), channels_rt, resolution_rt, byteRange_rt, codecs_rt, hexDecode_encode / natToBytes_spec / hexEncode_utf8Len / value_hex_rt, keyFormat_rt, closedCaptions_rt, keyFormatVersions_rt, float_accepts_finite; Props/C18Tags.lean: every tag type (EXTINF, BYTERANGE, KEY, MAP, PROGRAM-DATE-TIME, DATERANGE with its client attributes, MEDIA, both STREAM-INF kinds, SESSION-DATA, SESSION-KEY, START, the one-value tags) parses back from its own text on its well-formedness domain, and every parsed value is in that domain; Props/C18Float.lean: FL1 is now a THEOREM (float_roundtrip / ufloat_roundtrip / parseFloat_display for every format: the printed text of a finite value is read back as the same value whenever the digit search of the printing model finds digits — a decidable fact the kernel evaluates on concrete values), FL2 is reduced to two numeric facts (secs_roundtrip), FL3 (three-decimal frame rate) stays a named hypothesis; the printing model itself is tied to the implementation by execution incl. the 2^32 sweep; every case also carries the implementation oracle R:= (parse(to_string(v)) has the same observation as v), for parsed values and for values built through the public builders",
     "extra_coverage": lambda ctx: {"f32_sweep": getattr(ctx, "sweep", {})},
     "assumptions": ["FL1 (shortest-digit printing of binary32 round-trips) and FL2 (durations < 10^6 s through f64) are validated by execution, not proved"],
 }
@@ -3339,7 +3463,17 @@ def c10_build(ctx):
             for frac in (0, 1):
                 script = "td 10000000000\npush dur=%d uri=%s\npush dur=%d uri=%s %s" % (1500000000 if frac else NS, C.hx("s0"), NS, C.hx("s1"), " ".join(toks))
                 cases.append(mk("build_media", script, group="built-key-lists"))
-    return cases
+    # durations of every magnitude with a fraction the binary64 rendering keeps (halves up to 2^52 s, quarters up to 2^51 s, …): the
+    # written EXTINF is a decimal-floating-point number however large it is
+    big = [10 ** k for k in range(0, 16)] + [2 ** k - 1 for k in (24, 32, 40, 48, 50, 51, 52)] + [4 * 10 ** 15, 2 ** 52 + 1, 2 ** 53 + 1, 10 ** 17]
+    for secs in big:
+        for fr_lit, fr_ns in ((".5", 500000000), (".25", 250000000), (".125", 125000000), (".000000001", 1), ("", 0)):
+            for keyed in (0, 1):
+                k = '#EXT-X-KEY:METHOD=AES-128,URI="k"\n' if keyed else ""
+                cases.append(mk("media", "#EXTM3U\n#EXT-X-TARGETDURATION:%d\n%s#EXTINF:%d%s,\ns.ts\n" % (2 ** 63, k, secs, fr_lit), group="large-fractional-durations"))
+                cases.append(mk("build_media", "td %d\npush dur=%d uri=%s%s" % (2 ** 63 * NS, secs * NS + fr_ns, C.hx("s"), (" key=aes:%s:-:-:-" % C.hx("k")) if keyed else ""),
+                                group="large-fractional-durations"))
+    return inf_first(cases, every=3)
 
 
 def c10_oracle(ctx, cases, impl, model):
@@ -3640,6 +3774,27 @@ def c20_setter_twice():
                 two = ["%s %s" % (k, first), "push " + seg, "%s %s" % (k, second)] if where else ["%s %s" % (k, first), "%s %s" % (k, second), "push " + seg]
                 cases.append(mk("build_media", "\n".join(pre + two), group="setter-twice", meta={"twice": n}))
                 cases.append(mk("build_media", "\n".join(pre + ["%s %s" % (k, second), "push " + seg]), group="setter-twice", meta={"twice": n}))
+    # … and the setters of the SEGMENT builder (number(None) after number(Some(n)) takes the explicit number back), with the segment
+    # first, second or alone, handed over by push_segment or by segments(), under a media sequence of 0 or 5
+    S = {"uri": (hx("b"), hx("c")), "dur": ("1000000000", "2000000000"), "num": ("1", "0"), "num ": ("7", "none"), "num  ": ("none", "1"), "num   ": ("0", "none"),
+         "br": ("5@0", "7@1"), "br ": ("5@0", "7"), "pdt": (hx("2010-02-19T14:54:23.031+08:00"), hx("2011-02-19T14:54:23.031+08:00")),
+         "map": (hx("i"), hx("j")), "map ": (hx("i") + ":5@0", hx("i"))}
+    other = "dur=1000000000 br=3@0 uri=" + hx("a")
+    for k, (v1, v2) in S.items():
+        k = k.strip()
+        for first, second in ((v1, v2), (v2, v1)):
+            for shape in ("alone", "first", "second", "segs"):
+                for ms in ("0", "5"):
+                    def script(toks):
+                        sg = " ".join(["dur=1000000000", "uri=" + hx("b")] + toks)
+                        body = {"alone": ["push " + sg], "first": ["push " + sg, "push " + other], "second": ["push " + other, "push " + sg],
+                                "segs": ["segs " + other + " | " + sg]}[shape]
+                        return "\n".join(["td 10000000000", "ms " + ms] + body)
+                    n += 1
+                    cases.append(mk("build_media", script(["%s=%s" % (k, first), "%s=%s" % (k, second)]), group="segment-setter-twice", meta={"twice": n}))
+                    cases.append(mk("build_media", script(["%s=%s" % (k, second)]), group="segment-setter-twice", meta={"twice": n}))
+                    if second == "none":
+                        cases.append(mk("build_media", script([]), group="segment-setter-twice", meta={"twice": n}))
     return cases
 
 
@@ -4275,7 +4430,7 @@ def c03_build(ctx):
         cases.append(mk("tag:ExtXKey", "#EXT-X-KEY:" + lay.attrs(G.gen_key(rng)), group="tag"))
         cases.append(mk("tag:ExtInf", "#EXTINF:%s,%s" % (G.dec_seconds(rng, 10**6 - 1), rng.choice(["", "t", "a, b"])), group="tag"))
         cases.append(mk("tag:ExtXMap", '#EXT-X-MAP:URI="%s"%s' % (G.qs(rng), rng.choice(["", ',BYTERANGE="%d@%d"' % (G.rint(rng, 2**40), G.rint(rng, 2**40)), ',BYTERANGE="%d"' % G.rint(rng)])), group="tag"))
-    return cases
+    return inf_first(cases, every=2)
 
 
 def c03_oracle(ctx, cases, impl, model):
